@@ -404,3 +404,23 @@ pub fn nlj_fallback_kind(plan: &Arc<dyn ExecutionPlan>) -> Option<&'static str> 
     }
     plan.children().iter().find_map(|c| nlj_fallback_kind(c))
 }
+
+/// True if the plan contains a non-cooperative leaf that no CooperativeExec protects: walking down
+/// from the root, a cooperative *lazy* node covers its subtree, and every eager node (an exchange,
+/// which drives its inputs from tasks of its own) resets the cover. This is the plan shape of the
+/// known EnsureCooperative finding (known-findings.txt): the rule treats a cooperative *eager*
+/// ancestor as cover.
+pub fn unprotected_noncooperative_leaf(plan: &Arc<dyn ExecutionPlan>) -> bool {
+    use datafusion_physical_plan::execution_plan::{EvaluationType, SchedulingType};
+    fn walk(p: &Arc<dyn ExecutionPlan>, covered: bool) -> bool {
+        let props = p.properties();
+        let coop = props.scheduling_type == SchedulingType::Cooperative;
+        let eager = props.evaluation_type == EvaluationType::Eager;
+        if p.children().is_empty() {
+            return !coop && !covered;
+        }
+        let below = if eager { false } else { covered || coop };
+        p.children().iter().any(|c| walk(c, below))
+    }
+    walk(plan, false)
+}
